@@ -413,6 +413,29 @@ func ruleR06_1(c *Check) {
 			}
 			r.Check(okv, f, "valThreshold set only once", s, "valThreshold assigned unconditionally")
 		}
+		// … and the decision/estimate compares the value length with the entry's pinned threshold,
+		// never with the parameter (the current, moving threshold)
+		isValLen := w.lenOf(w.isField(w.Field("badger.Entry.Value")))
+		cmp := 0
+		f.walk(func(x ast.Node) bool {
+			be, ok := x.(*ast.BinaryExpr)
+			if !ok || negOp(be.Op) == token.ILLEGAL || be.Op == token.EQL || be.Op == token.NEQ {
+				return true
+			}
+			var other ast.Expr
+			switch {
+			case isValLen(w.from(be.X)):
+				other = be.Y
+			case isValLen(w.from(be.Y)):
+				other = be.X
+			default:
+				return true
+			}
+			cmp++
+			r.Check(w.fieldOf(other) == thr, f, "value length compared with the entry's pinned threshold", be, "the value length is compared with "+short(w, other)+", not with e.valThreshold: the size estimate / inline decision follows the moving threshold after the entry was accepted")
+			return true
+		})
+		r.Exists(cmp >= 1, f, "threshold comparison", nil, name+" no longer compares the value length with a threshold")
 	}
 	// every other store to valThreshold would break set-once
 	for _, o := range allStores(w, thr) {
